@@ -294,6 +294,11 @@ def main(argv=None):
     wall = time.time() - t0
 
     inconclusive = merged['inconclusive']
+    npre = merged['counters'].get('prerequisite_failures', 0)
+    if npre and not inconclusive:
+        # generated code for a valid schema did not build/import: the monitors behind it observed nothing
+        inconclusive = "%d prerequisite failures (part of the workload was never observed); first: %s" % (
+            npre, json.dumps(merged['prereq'][:1], default=repr)[:600])
     if failures:
         inconclusive = inconclusive or "; ".join(failures)[:2000]
     nviol = merged['counters'].get('violations_total', 0)
